@@ -74,6 +74,7 @@ struct JobData {
     /// None: the worker deserialises the configuration itself, for this file only
     opts: Option<Options>,
     env: Option<Arc<EpochEnv>>, // None = per-task Globals
+    handler: Option<Arc<swc_core::common::errors::Handler>>,
     shared_store: bool,
     epoch: u32,
     budget: u32,
@@ -564,6 +565,7 @@ fn run_task(j: &JobData, w: u8, sim: Option<Arc<Sim>>, record_sites: bool) -> Ta
             budget_fired: false,
             marks_allocated_at_yields: 0,
             hit_pure: false,
+            diag_sink: None,
         })
     });
     let _ = seams::take_last_panic();
@@ -589,7 +591,7 @@ fn run_task(j: &JobData, w: u8, sim: Option<Arc<Sim>>, record_sites: bool) -> Ta
         };
         GLOBALS.set(globals, || {
             pipeline::run_file(
-                Env { cm: &cm, comments, file_name: format!("task{}.{}", j.task_idx, if j.task.ts { "tsx" } else { "jsx" }) },
+                Env { handler: j.handler.as_deref(), cm: &cm, comments, file_name: format!("task{}.{}", j.task_idx, if j.task.ts { "tsx" } else { "jsx" }) },
                 &j.task.src,
                 j.task.ts,
                 j.task.script,
@@ -651,7 +653,7 @@ pub fn solo_here(task: &PlanTask, key_seed: u64) -> SoloResult {
     t.emitter_crash_at = None;
     t.noise = Default::default();
     let opts = Some(parse_options(&t.options).expect("workload options must deserialize"));
-    let j = JobData { task_idx: 0, task: t, opts, env: None, shared_store: false, epoch: 0, budget: SOLO_STEP_CAP };
+    let j = JobData { task_idx: 0, task: t, opts, env: None, handler: None, shared_store: false, epoch: 0, budget: SOLO_STEP_CAP };
     // (VERIF_SOLO_STACK_KIB: diagnostic knob to find workload modules too deep for small host stacks)
     let stack = std::env::var("VERIF_SOLO_STACK_KIB").ok().and_then(|s| s.parse::<usize>().ok()).map(|k| k << 10).unwrap_or(WORKER_STACK);
     std::thread::Builder::new()
@@ -770,6 +772,11 @@ pub fn execute(plan: &Plan, script: Option<&[Action]>, budgets: &[u32]) -> RunRe
     }
     let mut epoch = 0u32;
     let mut env = EpochEnv::new();
+    let shared_handler = if plan.handler_shared {
+        Some(Arc::new(swc_core::common::errors::Handler::with_emitter(true, false, Box::new(seams::RoutingEmitter))))
+    } else {
+        None
+    };
 
     loop {
         let act = {
@@ -816,6 +823,7 @@ pub fn execute(plan: &Plan, script: Option<&[Action]>, budgets: &[u32]) -> RunRe
                     task: t,
                     opts,
                     env: if plan.globals == GlobalsMode::PerTask { None } else { Some(env.clone()) },
+                    handler: shared_handler.clone(),
                     shared_store: plan.store == StoreMode::Shared,
                     epoch,
                     budget: budgets[ti],
